@@ -67,19 +67,21 @@ def image_bytes(spec):
 class Session:
     """One real gateway + one model, stepped together."""
 
-    def __init__(self, version, flavour="sync", snapshot_in_callback=True, driver=None, persist=None):
+    def __init__(self, version, flavour="sync", snapshot_in_callback=True, driver=None, persist=None, spelling=None):
         import mysensors.handler as handler
 
         self.version = version
+        # what the application passes as protocol_version: "2.0" may as well be written "2.0.0", 2.0 or "2.0.5"
+        self.spelling = spelling if spelling is not None else version
         self._scratch = None
         if driver is None and persist:
             import tempfile
 
             self._scratch = tempfile.mkdtemp(prefix="vf_ls_")
             self._pfile = os.path.join(self._scratch, f"net.{persist}")
-            driver = drive.Driver(version, flavour, snapshot_in_callback=snapshot_in_callback, persistence=True,
+            driver = drive.Driver(self.spelling, flavour, snapshot_in_callback=snapshot_in_callback, persistence=True,
                                   persistence_file=self._pfile)
-        self.driver = driver or drive.Driver(version, flavour, snapshot_in_callback=snapshot_in_callback)
+        self.driver = driver or drive.Driver(self.spelling, flavour, snapshot_in_callback=snapshot_in_callback)
         self.model = M.Gateway(version)
         self.clock = FakeTime()
         self.model.clock = self.clock.struct
@@ -109,7 +111,7 @@ class Session:
             # traffic on ANOTHER gateway object of the same process (same version and flavour): this gateway
             # must not notice - nothing emitted, no callback, state unchanged
             if getattr(self, "neighbour", None) is None:
-                self.neighbour = drive.Driver(self.version, self.driver.flavour if self.driver.flavour in ("sync", "async") else "sync")
+                self.neighbour = drive.Driver(self.spelling, self.driver.flavour if self.driver.flavour in ("sync", "async") else "sync")
             mark, cbs = len(self.driver.sent_log()), len(self.driver.cb_log)
             self.neighbour.line(op["text"])
             if len(self.driver.sent_log()) != mark or len(self.driver.cb_log) != cbs:
@@ -140,7 +142,7 @@ class Session:
                 return None
             try:
                 pers.save_sensors()  # what stop() does: the final save relies on the unsaved mark
-                new = drive.Driver(self.version, old.flavour, snapshot_in_callback=old.snapshot_in_callback, persistence=True, persistence_file=self._pfile)
+                new = drive.Driver(self.spelling, old.flavour, snapshot_in_callback=old.snapshot_in_callback, persistence=True, persistence_file=self._pfile)
                 new.gw.tasks.persistence.safe_load_sensors()
             except Exception as exc:  # pylint: disable=broad-except
                 raise Clause({"crash", "state", "sleep", "wake", "reply"}, f"restart_raises.{type(exc).__name__}", f"saving / loading at a restart raised {exc!r}") from exc
@@ -234,11 +236,9 @@ class Session:
         got = []
         for line in step.sent:
             try:
-                f = codec.decode(line)
+                f = emitted_fields(line)
             except codec.Malformed as exc:
-                raise Clause({"reply"}, "emitted_malformed", f"emitted {line!r} does not decode: {exc}") from exc
-            if codec.encode(f) != line:
-                raise Clause({"reply"}, "emitted_not_canonical", f"emitted {line!r}, canonical form {codec.encode(f)!r}")
+                raise Clause({"reply"}, "emitted_malformed", f"emitted {line!r} is not a single canonical command line: {exc}") from exc
             if V.validate(self.version, f) is False:
                 raise Clause({"reply"}, "emitted_invalid", f"emitted {line!r} is not valid for version {self.version}")
             if f[0] in sleeping_before and f[2] != T.STREAM:
@@ -394,11 +394,9 @@ class Session:
         got = []
         for line in step.sent:
             try:
-                f = codec.decode(line)
+                f = emitted_fields(line)
             except codec.Malformed as exc:
-                raise Clause({"reply"}, "emitted_malformed", f"emitted {line!r} does not decode: {exc}") from exc
-            if codec.encode(f) != line:
-                raise Clause({"reply"}, "emitted_not_canonical", f"emitted {line!r}, canonical form {codec.encode(f)!r}")
+                raise Clause({"reply"}, "emitted_malformed", f"emitted {line!r} is not a single canonical command line: {exc}") from exc
             if V.validate(self.version, f) is False:
                 fams = {"reply"}
                 if exp.wake is not None:
@@ -525,6 +523,26 @@ class Step_like:  # pylint: disable=invalid-name,too-few-public-methods
         self.callbacks = callbacks
 
 
+_CANON = __import__("re").compile(r"-?(0|[1-9][0-9]*)\Z")
+
+
+def emitted_fields(line):
+    """Six fields of a command the gateway EMITS, the payload kept byte for byte (trailing blanks included - a
+    receiver may strip them, the gateway has no business doing so). Raises codec.Malformed for anything that is
+    not `n;c;t;a;s;payload\\n` with canonically spelled numbers and a payload free of ';' and line breaks."""
+    if not line.endswith("\n") or "\n" in line[:-1] or "\r" in line:
+        raise codec.Malformed("not exactly one LF-terminated line")
+    parts = line[:-1].split(";", 5)
+    if len(parts) != 6:
+        raise codec.Malformed(f"{len(parts)} fields")
+    if ";" in parts[5]:
+        raise codec.Malformed("delimiter inside the payload")
+    for text in parts[:5]:
+        if not _CANON.match(text):
+            raise codec.Malformed(f"number spelled {text!r}")
+    return tuple(int(x) for x in parts[:5]) + (parts[5],)
+
+
 def strip_ack(f):
     return (f[0], f[1], f[2], f[4], f[5])
 
@@ -574,7 +592,7 @@ def run_history(case, families, stats=None, flavour=None):
 
     Returns the Session labels (for non-triviality accounting)."""
     version = case["version"]
-    sess = Session(version, flavour or case.get("flavour", "sync"), persist=case.get("persist"))
+    sess = Session(version, flavour or case.get("flavour", "sync"), persist=case.get("persist"), spelling=case.get("gw_version"))
     try:
         for i, op in enumerate(case["ops"]):
             try:
